@@ -15,6 +15,60 @@ from .tower import Ext, PrimeField
 
 
 # ----------------------------------------------------------------------------- Fp2 helpers
+class Fp2(Ext):
+    """Ext(PrimeField(p), 2, nr) with the arithmetic written out on Python integers (several times faster than
+    the generic loops, same element representation); checked against the generic code at construction."""
+
+    def __init__(self, base, nr):
+        Ext.__init__(self, base, 2, nr % base.p)
+        self._p = base.p
+        self._nr = nr % base.p
+        import random
+        rng = random.Random(self._p & 0xFFFF)
+        G = Ext(base, 2, nr % base.p)
+        for _ in range(6):
+            a, b = G.rand(rng), G.rand(rng)
+            assert self.mul(a, b) == G.mul(a, b) and self.add(a, b) == G.add(a, b) and self.sub(a, b) == G.sub(a, b)
+            assert self.inv(a) == G.inv(a) and self.neg(a) == G.neg(a) and self.sqr(a) == G.mul(a, a)
+
+    def add(self, a, b):
+        p = self._p
+        return ((a[0] + b[0]) % p, (a[1] + b[1]) % p)
+
+    def sub(self, a, b):
+        p = self._p
+        return ((a[0] - b[0]) % p, (a[1] - b[1]) % p)
+
+    def neg(self, a):
+        p = self._p
+        return (-a[0] % p, -a[1] % p)
+
+    def mul(self, a, b):
+        p = self._p
+        a0, a1 = a
+        b0, b1 = b
+        return ((a0 * b0 + self._nr * a1 * b1) % p, (a0 * b1 + a1 * b0) % p)
+
+    def sqr(self, a):
+        p = self._p
+        a0, a1 = a
+        return ((a0 * a0 + self._nr * a1 * a1) % p, 2 * a0 * a1 % p)
+
+    def inv(self, a):
+        p = self._p
+        a0, a1 = a
+        ni = pow((a0 * a0 - self._nr * a1 * a1) % p, -1, p)
+        return (a0 * ni % p, -a1 * ni % p)
+
+    def is_zero(self, a):
+        p = self._p
+        return a[0] % p == 0 and a[1] % p == 0
+
+    def eq(self, a, b):
+        p = self._p
+        return (a[0] - b[0]) % p == 0 and (a[1] - b[1]) % p == 0
+
+
 def fp2_sqrt(F2, a):
     """a square root of a in Fp2 = Fp[u]/(u^2 - nr), or None (complex method; the result is verified)"""
     F = F2.base
@@ -89,7 +143,7 @@ class PairingModel(object):
         self.r = n
         self.h1 = h
         self.F = PrimeField(p)
-        self.F2 = Ext(self.F, 2, qnr % p)
+        self.F2 = Fp2(self.F, qnr % p)
         assert pow(qnr % p, (p - 1) // 2, p) == p - 1, "reported quadratic non-residue is a residue"
         self.E1 = WCurve(self.F, 0, b % p, n, h)
         self.E2 = WCurve(self.F2, self.F2.zero, tuple(b2), n)
